@@ -90,8 +90,13 @@ Fixpoint sess_spec_ok (sp : list (string * db)) (cur : option string) (evs : lis
       | None, SOErr (SEStmt _) => negb (valid_dbname n) && sess_spec_ok sp cur er orr   (* a path is refused *)
       | _, _ => false
       end
-  | ShEv (SvStmt SShowDatabase) :: er, ShOut (SOShow names) :: orr =>
-      list_eqb String.eqb names (sort_strs (map fst sp)) && sess_spec_ok sp cur er orr
+  | ShEv (SvStmt SShowDatabase) :: er, ShOut o :: orr =>
+      (* SHOW DATABASES never fails, with or without a selected database: any other answer than
+         the list of names is rejected here (it must not reach the DDL / DML clause below) *)
+      match o with
+      | SOShow names => list_eqb String.eqb names (sort_strs (map fst sp)) && sess_spec_ok sp cur er orr
+      | _ => false
+      end
   | ShEv (SvStmt st) :: er, ShOut o :: orr =>
       match cur, o with
       | None, SOErr SENoDB => sess_spec_ok sp cur er orr
@@ -117,10 +122,12 @@ Fixpoint sess_spec_ok (sp : list (string * db)) (cur : option string) (evs : lis
       end
   | ShEv SvTick :: er, ShDone true :: orr => sess_spec_ok sp cur er orr
   | ShEv (SvRestart _) :: er, ShDone true :: orr => sess_spec_ok sp None er orr
-  | ShRead _ :: er, ShTables l :: orr =>
+  | ShRead ns :: er, ShTables l :: orr =>
+      (* the tables answered are exactly the tables asked for, in order *)
       match cur with
       | Some c => match sp_get c sp with
-                  | Some d => forallb (table_matches_spec d) l && sess_spec_ok sp cur er orr
+                  | Some d => list_eqb String.eqb ns (map fst l) &&
+                              forallb (table_matches_spec d) l && sess_spec_ok sp cur er orr
                   | None => false
                   end
       | None => false
